@@ -187,7 +187,8 @@ def gen_journal(rng, idx):
     """-> list of Xact (abstract), the query word or None"""
     comms = rng.sample(COMMS, rng.choice([1, 2, 2, 3]))
     decs = {c[0]: rng.choice([0, 2, 2, 3]) for c in comms}
-    qword = 'Zq' if rng.random() < 0.25 else None
+    r = rng.random()
+    qword = 'Zq' if r < 0.25 else 'Nomatch' if r < 0.28 else None      # Nomatch: an empty report
     acct_pool = []
     for _ in range(rng.choice([2, 3, 4])):
         a = gen_field(rng, account_ok)
@@ -195,7 +196,7 @@ def gen_journal(rng, idx):
             a = rng.choice(['Assets', 'Expenses', 'É']) + ':' + a
             if not account_ok(a):
                 a = 'Assets:w'
-        if qword and rng.random() < 0.6:
+        if qword == 'Zq' and rng.random() < 0.6:
             a = a + qword if rng.random() < 0.5 else qword + ':' + a
             if not account_ok(a):
                 a = qword
@@ -208,7 +209,8 @@ def gen_journal(rng, idx):
         x.days = day
         x.state = rng.choice([0, 0, 1, 2])
         r = rng.random()
-        x.code = None if r < 0.45 else ('' if r < 0.52 else gen_field(rng, code_ok))
+        # a code may be empty or blank: `()` prints <code/>, `( )` takes boost's only-spaces branch (&#32;)
+        x.code = None if r < 0.45 else ('' if r < 0.50 else rng.choice([' ', '  ', '   ']) if r < 0.54 else gen_field(rng, code_ok))
         x.payee = gen_field(rng, lambda t: payee_ok(t, x.code is not None, x.state))
         x.notes = []        # note lines of the transaction ('' = none)
         if rng.random() < 0.5:
@@ -894,6 +896,12 @@ def run(ctx, n_override=None):
         res.count('query' if rec['query'] else 'no-query')
         res.count('csv-format:' + rec['fkind'])
         res.count('postings', sum(len(ps) for _, ps in rec['shown']))
+        if not rec['shown']:
+            res.count('empty-report')
+        if any(x.code is not None and x.code.strip(' ') == '' for x, _ in rec['shown']):
+            res.count('journal-with:empty-or-blank-code')
+        if any(x.days < 0 for x, _ in rec['shown']):
+            res.count('journal-with:date-before-1970')
         if any(p.cost for _, ps in rec['shown'] for p in ps):
             res.count('journal-with:cost')
         if any(p.virtual for _, ps in rec['shown'] for p in ps):
